@@ -1,1 +1,47 @@
-// harnesses for module matchers (included into /repo under cfg(kani))
+// Harness support living in find::matchers (re-exports for find/mod.rs harnesses) and C01 action flags.
+use super::*;
+pub(crate) use super::entry::verif_kani as common;
+pub(crate) use super::prune::verif_kani::PruneProbe;
+use common::{fmt_stub, hae_stub, he_stub, noop_stub, Deps};
+
+/// Always-true leaf usable from find/mod.rs harnesses.
+pub struct VerifTrue;
+impl Matcher for VerifTrue { fn matches(&self, _: &WalkEntry, _: &mut MatcherIO) -> bool { true } }
+
+// @harness props=C01 tier=quick cost=30
+// @exec has_side_effects of Printer, DeleteMatcher, PruneMatcher, QuitMatcher, TrueMatcher, FalseMatcher, Ls, Printf, Single/MultiExecMatcher, TypeMatcher-like tests
+// @sym which primary (index)
+// @bounds one primary
+/// The "is an action" table behind the implicit -print: -print/-print0/-printf/-ls/-delete/-exec* are actions; -prune, -quit and tests are not.
+#[kani::proof]
+#[kani::unwind(4)]
+#[kani::stub(alloc::fmt::format, fmt_stub)]
+#[kani::stub(alloc::raw_vec::handle_error, he_stub)]
+#[kani::stub(std::alloc::handle_alloc_error, hae_stub)]
+#[kani::stub(std::rt::thread_cleanup, noop_stub)]
+fn c01_action_flags() {
+    let which: u8 = kani::any();
+    kani::assume(which < 12);
+    let (got, want) = match which {
+        0 => (Printer::new(PrintDelimiter::Newline, None).has_side_effects(), true),
+        1 => (Printer::new(PrintDelimiter::Null, None).has_side_effects(), true),
+        2 => (DeleteMatcher::new().has_side_effects(), true),
+        3 => (PruneMatcher::new().has_side_effects(), false),
+        4 => (QuitMatcher.has_side_effects(), false),
+        5 => (TrueMatcher.has_side_effects(), false),
+        6 => (FalseMatcher.has_side_effects(), false),
+        7 => { let m = Ls::new(None); let r = m.has_side_effects(); std::mem::forget(m); (r, true) }
+        8 => { let m = printf::verif_kani::printf_empty(); let r = m.has_side_effects(); std::mem::forget(m); (r, true) }
+        9 => { let m = exec::verif_kani::single_exec_empty(); let r = m.has_side_effects(); std::mem::forget(m); (r, true) }
+        10 => { let m = exec::verif_kani::multi_exec_empty(); let r = m.has_side_effects(); std::mem::forget(m); (r, true) }
+        _ => (EmptyMatcher::new().has_side_effects(), false),
+    };
+    assert!(got == want);
+    kani::cover!(which == 8); kani::cover!(which == 4); kani::cover!(which == 10);
+}
+#[kani::proof]
+#[kani::unwind(4)]
+#[kani::stub(alloc::fmt::format, fmt_stub)]
+fn c01_action_flags_canary() {
+    assert!(!DeleteMatcher::new().has_side_effects()); // must FAIL
+}
